@@ -510,6 +510,29 @@ def run(ctx):
                        "different steps (coarse asset frequency, periodic asset) is pinned only if its *first* row lies in the window; "
                        "the other fixed steps stay free" % au.short(col, 60), node=n)
     if not found:
+        # a range test in place of the set membership?
+        rng = []
+        for s2 in au.walk_stmts(fix_if[0].body):
+            for n in au.walk_own(s2):
+                is_steps = lambda e: any(isinstance(x, ast.Subscript) and au.const_str(x.slice) == "time_step" for x in au.walk_local(e))
+                if isinstance(n, ast.Call) and au.method_name(n) == "between" and isinstance(n.func, ast.Attribute) and is_steps(n.func.value):
+                    rng.append((n, s2, list(n.args) + [k.value for k in n.keywords]))
+                elif isinstance(n, ast.Compare) and len(n.ops) == 1 and isinstance(n.ops[0], (ast.Lt, ast.LtE, ast.Gt, ast.GtE)) and \
+                        (is_steps(n.left) != is_steps(n.comparators[0])):
+                    rng.append((n, s2, [n.comparators[0] if is_steps(n.left) else n.left]))
+        org15 = ctx.origins(pfn, values_only=True)
+        for n, s2, bounds in rng:
+            extremes = [x for b0 in bounds for x in org15.nodes(b0, s2) + list(au.walk_local(b0))
+                        if (isinstance(x, ast.Call) and au.method_name(x) in ("min", "max", "amin", "amax", "nanmin", "nanmax", "argmax", "argmin"))
+                        or (isinstance(x, ast.Subscript) and au.const_num(x.slice) in (0, -1))]
+            if extremes:
+                found = True
+                ctx.ob("C15.f", pfn, au.short(n, 80), False,
+                       "membership in the window is tested as a *range* between extremes of the window (%s): the window given as an index mask or a "
+                       "list of steps need not be one block - steps 0-4 and 10-14 pin the variables of steps 5-9 as well, which the property leaves "
+                       "free (25 variables outside the window with changed bounds)" % au.short(extremes[0], 40), node=n,
+                       key="window membership is a set membership, not a range")
+    if not found:
         ctx.ob("C15.f", pfn, "window membership test", None, "no `time_step ... .isin(window)` test found in the fix-window branch")
 
     # ---------------------------------------------------------------- C04.a structural part of Asset.dcf
